@@ -71,6 +71,7 @@ type Profile struct {
 	PCCSpell      float64 // alternative spellings of Cache-Control
 	PClientCond   float64 // client-supplied conditional headers
 	PAdvVary      float64 // adversarial selecting header values
+	PLongURL      float64 // all URLs of the case get a long last path segment (keys of 150-300 bytes: file-name limits of the file-system backend)
 	WideStatus    bool    // statuses drawn from all of 100-599
 	Statuses      []int
 	Methods       []string
@@ -118,6 +119,18 @@ func (g *G) delay() time.Duration {
 
 func httpDate(t time.Time) string { return t.UTC().Format(http.TimeFormat) }
 
+// dateStr: an HTTP-date in the preferred form or, rarely, in one of the two obsolete forms a recipient must
+// accept (RFC 9110 §5.6.7): RFC 850 (two-digit year) and asctime
+func (g *G) dateStr(t time.Time) string {
+	switch g.intn(10) {
+	case 0:
+		return t.UTC().Format("Monday, 02-Jan-06 15:04:05") + " GMT"
+	case 1:
+		return t.UTC().Format(time.ANSIC)
+	}
+	return httpDate(t)
+}
+
 var epoch = time.Unix(946684800, 0)
 
 // respelling of a directive name / list (used by the spelling profiles)
@@ -160,7 +173,9 @@ func (g *G) spellCC(ds []directive) []string {
 	var elems []string
 	for _, d := range ds {
 		if g.chance(0.25) {
-			elems = append(elems, g.pick("foo", "bar=1", `ext="a,b"`, "x-y=z", `community="UCI"`))
+			// extension directives, some with quoted-pairs: an escaped quote does not end the argument, an escaped
+			// backslash does not escape the quote after it
+			elems = append(elems, g.pick("foo", "bar=1", `ext="a,b"`, "x-y=z", `community="UCI"`, `ext="a\"b"`, `ext="a\", no-store, x=\"b"`, `q="\\"`, `ext="\"", y=",no-cache,"`))
 		}
 		name := g.spellName(d.name)
 		if !d.has {
@@ -413,19 +428,19 @@ func (g *G) genRep(p *Profile, idx int, approx time.Time, conditional bool) Rep 
 			date = approx.Add(g.pickD(-time.Second, -10*time.Second, -time.Hour, 5*time.Second, time.Hour,
 				-100*365*24*time.Hour))
 		}
-		add("Date", httpDate(date))
+		add("Date", g.dateStr(date))
 	}
 	if heur || g.chance(0.15) {
-		add("Last-Modified", httpDate(date.Add(-time.Duration(g.pickI(5, 10, 20, 100, 36000, 86400*365))*time.Second)))
+		add("Last-Modified", g.dateStr(date.Add(-time.Duration(g.pickI(5, 10, 20, 100, 36000, 86400*365))*time.Second)))
 	}
 	if g.chance(0.15) {
 		switch g.intn(4) {
 		case 0:
 			add("Expires", "0")
 		case 1:
-			add("Expires", httpDate(date.Add(-time.Second)))
+			add("Expires", g.dateStr(date.Add(-time.Second)))
 		default:
-			add("Expires", httpDate(date.Add(time.Duration(g.seconds())*time.Second)))
+			add("Expires", g.dateStr(date.Add(time.Duration(g.seconds())*time.Second)))
 		}
 	}
 	if g.chance(p.PAge) {
@@ -437,7 +452,11 @@ func (g *G) genRep(p *Profile, idx int, approx time.Time, conditional bool) Rep 
 		add("X-Ghost-Age", a)
 	}
 	if g.chance(p.PValidators) {
-		add("ETag", fmt.Sprintf(`"v%d"`, g.intn(3)))
+		et := fmt.Sprintf(`"v%d"`, g.intn(3))
+		if g.chance(0.2) {
+			et = "W/" + et // a weak validator is a validator too (RFC 9110 §8.8.3; If-None-Match compares weakly)
+		}
+		add("ETag", et)
 	}
 	if g.chance(p.PVary) {
 		if g.chance(0.15) {
@@ -451,7 +470,7 @@ func (g *G) genRep(p *Profile, idx int, approx time.Time, conditional bool) Rep 
 		add("X-Secret", fmt.Sprintf("s%d", idx))
 	}
 	if g.chance(p.PConnHdr) {
-		add("Connection", g.pick("close", "X-Hop", "keep-alive, X-Hop"))
+		add("Connection", g.pick("close", "X-Hop", "keep-alive, X-Hop", "x-hop", "Keep-Alive, x-HOP"))
 		add("X-Hop", "h")
 		if g.chance(0.5) {
 			add("Keep-Alive", "timeout=5")
@@ -565,6 +584,13 @@ func (g *G) genCase(p *Profile, id string) *Case {
 		}
 		c.Reqs = append(c.Reqs, rq)
 	}
+	if g.chance(p.PLongURL) {
+		// key = scheme://host + path (+ ?query): lengths on both sides of 192 and 255 bytes, and beyond
+		suffix := strings.Repeat("s", g.pickI(150, 171, 176, 177, 178, 190, 200, 230, 238, 239, 240, 241, 260, 300))
+		for i := range c.Reqs {
+			c.Reqs[i].URL = longURL(c.Reqs[i].URL, suffix)
+		}
+	}
 	// one script entry per request plus spares for background revalidations
 	approx = epoch
 	for i := 0; i < n+4; i++ {
@@ -619,6 +645,7 @@ func init() {
 		p.NReq = [2]int{3, 6}
 		p.WideStatus, p.PBodyFail, p.PClientCond, p.PRange, p.PUnsafe = true, 0.12, 0.25, 0.1, 0.2
 		p.PReqCC, p.URLs, p.PHeuristic = 0.35, 2, 0.4
+		p.PLongURL = 0.1
 	})
 	profiles["freshen"] = derive("freshen", func(p *Profile) {
 		p.NReq = [2]int{4, 9}
@@ -636,6 +663,7 @@ func init() {
 		p.PSpelling, p.PReqCC, p.PNoCache, p.PMustReval, p.PUnsafe = 0.7, 0.1, 0.03, 0.05, 0.02
 		p.PHeuristic, p.URLs, p.PVary, p.PErrReply, p.PRange, p.PLocation = 0.35, 2, 0.4, 0.02, 0.0, 0.0
 		p.Statuses = []int{200, 200, 200, 203, 301, 404, 405, 410, 414, 501, 308, 204, 302}
+		p.PLongURL = 0.15
 	})
 	profiles["age"] = derive("age", func(p *Profile) {
 		p.NReq = [2]int{3, 7}
@@ -663,6 +691,7 @@ func init() {
 		p.PUnsafe, p.PReqCC, p.POnlyIfCached, p.PNoCache, p.PMustReval = 0.02, 0.8, 0.6, 0.25, 0.35
 		p.PSWR, p.PSIE, p.URLs, p.PVary = 0.3, 0.2, 1, 0.2
 		p.PLocation, p.PConnHdr, p.PRange = 0.0, 0.0, 0.0
+		p.PCCSpell = 0.4
 	})
 }
 
@@ -832,4 +861,13 @@ func (g *G) genFor(p *Profile, id string, i int) *Case {
 		return g.genTwoMatchCase(p, id)
 	}
 	return g.genCase(p, id)
+}
+
+// longURL appends a path segment to the URL's path (before any query or fragment)
+func longURL(u, suffix string) string {
+	cut := len(u)
+	if i := strings.IndexAny(u, "?#"); i >= 0 {
+		cut = i
+	}
+	return u[:cut] + "/" + suffix + u[cut:]
 }
